@@ -273,6 +273,8 @@ _DEFAULT_AST_FIELD = {kls: field for field, classes in [  # builds to {Module: '
 _re_dump_line_tail     = re.compile(r'\s* ( \#.*$ | \\$ | ; (?: \s* (?: \#.*$ | \\$ ) )? )', re.VERBOSE)
 _re_one_space_or_end   = re.compile(r'\s|$')
 
+_re_alnum              = re.compile(rf'[{pat_alnum}]')
+_re_alnum_or_dot       = re.compile(rf'[{pat_alnum}.]')
 _re_par_open_alnums    = re.compile(rf'[{pat_alnum}.][(][{pat_alnum}]')
 _re_par_close_alnums   = re.compile(rf'[{pat_alnum}.][)][{pat_alnum}]')
 _re_delim_open_alnums  = re.compile(rf'[{pat_alnum}.][({{[][{pat_alnum}]')
@@ -1745,16 +1747,22 @@ def _unparenthesize_grouping(self: fst.FST, shared: bool | None = True, *, star_
 
             self._touch()  # no offset is done here so need to flush our cached pars explicitly
 
-        else:
-            self._put_src(None, end_ln, end_col, pend_ln, pend_col, True, self)
+        else:  # may be multiple parentheses or whitespace between us and an alphanumeric, e.g. '((a))else'
+            need_space = (end_col and pend_col < len(l := lines[pend_ln]) and _re_alnum_or_dot.match(lines[end_ln], end_col - 1)
+                          and _re_alnum.match(l, pend_col))
+
+            self._put_src(' ' if need_space else None, end_ln, end_col, pend_ln, pend_col, True, self)
 
         if pcol and _re_par_open_alnums.match(l := lines[pln], pcol - 1):
             lines[pln] = bistr(l[:pcol] + ' ' + l[pcol + 1:])
 
             self._touch()  # no offset is done here so need to flush our cached pars explicitly
 
-        else:
-            self._put_src(None, pln, pcol, ln, col, False)
+        else:  # same as above, e.g. 'if((a))'
+            need_space = (pcol and col < len(l := lines[ln]) and _re_alnum_or_dot.match(lines[pln], pcol - 1)
+                          and _re_alnum.match(l, col))
+
+            self._put_src(' ' if need_space else None, pln, pcol, ln, col, False)
 
     return True
 
